@@ -325,6 +325,16 @@ type spyVault struct {
 	tr *tracer
 	// hook, if set, is called before each write reaches the store (may block or panic to cut)
 	hook func(e *Event)
+	// readHook, if set, is called after each Read of a plan has returned (may block)
+	readHook func(id uuid.UUID)
+}
+
+func (v *spyVault) Read(ctx context.Context, id uuid.UUID) (*workflow.Plan, error) {
+	p, err := v.Vault.Read(ctx, id)
+	if h := v.readHook; h != nil {
+		h(id)
+	}
+	return p, err
 }
 
 func stateImg(s *workflow.State) *ObjImg {
